@@ -219,6 +219,7 @@ type faultRun struct {
 	panic string
 	fired []seam.Fired
 	store *seam.MemStore
+	tree  *iavl.MutableTree // the handle the operation ran on (faults disarmed afterwards)
 }
 
 // runFaulted executes op on a fresh handle over a clone of base with call number n failing.
@@ -264,6 +265,7 @@ func runFaulted(base *seam.MemStore, cfg v1x.Config, op *fop, n int, mask int, p
 	calls = w.Seq()
 	fr.fired = w.Disarm()
 	fr.store = st
+	fr.tree = t
 	return fr, calls
 }
 
@@ -367,6 +369,32 @@ func probeOpMask(c *fw.Ctx, base *seam.MemStore, cfg v1x.Config, op *fop, univer
 				}
 			}
 			c.Obs("post_states_judged", 1)
+			// the SAME handle stays usable and keeps refusing to delete its real latest version
+			if fr.err != nil && fr.panic == "" && fr.tree != nil && op.kind != "import" {
+				avail, _, _ := judgeState(fr.store.Clone(), cfg, cfg.Fast, nil, universe)
+				if len(avail) > 0 {
+					realLatest := avail[len(avail)-1]
+					before := fr.store.Clone()
+					var derr error
+					func() {
+						defer func() {
+							if r := recover(); r != nil {
+								derr = fmt.Errorf("panic: %v", r)
+							}
+						}()
+						derr = fr.tree.DeleteVersionsTo(realLatest)
+					}()
+					if derr == nil {
+						c.Violate(idx, "fault|"+op.name+"|"+kind+"|then-latest-deleted", "%s: the operation reported the fault; afterwards DeleteVersionsTo(%d) on the same handle - a request to delete the real latest version - was accepted", where, realLatest)
+						return
+					}
+					if !before.Equal(fr.store) {
+						c.Violate(idx, "fault|"+op.name+"|"+kind+"|then-rejected-prune-had-effect", "%s: afterwards the rejected DeleteVersionsTo(%d) on the same handle changed the store", where, realLatest)
+						return
+					}
+					c.Obs("same_handle_followups", 1)
+				}
+			}
 		}
 	}
 	limit := n
